@@ -690,7 +690,7 @@ func shrinkRecipe(rc Recipe, f Failure) Recipe {
 func validOps(rc Recipe) bool {
 	rows, cols := rc.R0, rc.C0
 	for _, o := range rc.Ops {
-		if o.T {
+		if o.T || o.Tip {
 			rows, cols = cols, rows
 			continue
 		}
